@@ -37,11 +37,20 @@ ASSUMPTIONS = [
     "float spellings never use more digits than the type holds (7/16); longer spellings are the "
     "subject of C07",
     "the model stores the blank behind line number 0 (GW-BASIC quirk, matches the lister dropping it)",
-    "'?' is not generated inside THEN/ELSE clauses (finding roundtrip.qmark-in-jump-context); the "
-    "directed regression case covers it",
+    "'?' typed for PRINT behind THEN/ELSE keeps its own bucket suffix .qmark-in-jump-context "
+    "(fixed in /repo 6fde958d; directed regression case kept)",
 ]
 
-KILLS = []
+KILLS = [
+    "tokeniser._linenum_words without RESTORE -> tok.model.jump, e2e.memory",
+    "lister: '(' removed from the no-blank-after-keyword list -> list.model.punct, roundtrip.tok, e2e.list",
+    "numbers.Integer.to_token `byte < 10` -> `<= 10` -> tok.model.byte, e2e.memory",
+    "tokens.py CVI/CVS tokens swapped -> keyword.tokenise/list/bare, tok.model.keyword",
+    "tokeniser._tokenise_word without .upper() -> keyword.tokenise, tok.case, tok.model.*, roundtrip.tok",
+    "Integer.to_hex lower case -> list.model.hex",
+    "tokeniser: blank behind line number 0 dropped -> tok.model.*, e2e.memory",
+    "unfixed tree: '?' behind THEN leaves jump-number mode -> *.qmark-in-jump-context",
+]
 
 _SESS = {}
 
@@ -343,7 +352,7 @@ def units(tier):
         Unit('keywords', 'enum', shards=2, gen=gen_keywords, exhaustive=True),
         Unit('literals', 'enum', shards=4, gen=gen_literals),
         Unit('lines', 'hyp', shards=16,
-             examples={'quick': G.scaled(1100), 'thorough': G.scaled(60000)},
+             examples={'quick': G.scaled(900), 'thorough': G.scaled(50000)},
              strategy=strat_lines),
     ]
 
